@@ -11,6 +11,7 @@ type c07prog struct {
 	src  string
 	inf  bool // does not terminate when lim < 0
 	host bool // calls tick()
+	mods bool // imports the stdlib source module enum
 	expr string // expression form for tengo.Eval (same meaning, result instead of globals)
 }
 
@@ -126,6 +127,48 @@ func c07Programs(r *plan.Rng) []c07prog {
 			"		out += v",
 			"	}",
 			"}")},
+		{name: "forInBytes", inf: true, src: lines(
+			"out := 0",
+			"for lim < 0 || out < lim {",
+			"	for i, c in bytes(\"abcdef\") {",
+			"		out += 1",
+			"	}",
+			"}")},
+		{name: "forInImmutable", inf: true, src: lines(
+			"out := 0",
+			"ia := immutable([1, 2, 3])",
+			"im := immutable({a: 1, b: 2})",
+			"for lim < 0 || out < lim {",
+			"	for x in ia {",
+			"		out += x",
+			"	}",
+			"	for key, v in im {",
+			"		out += v",
+			"	}",
+			"}")},
+		{name: "forInRange", inf: true, src: lines(
+			"out := 0",
+			"for lim < 0 || out < lim {",
+			"	for x in range(0, "+n+") {",
+			"		out += 1",
+			"	}",
+			"	out += 1",
+			"}")},
+		{name: "enumCallback", inf: true, mods: true, src: lines(
+			"enum := import(\"enum\")",
+			"out := 0",
+			"for lim < 0 || out < lim {",
+			"	enum.each([1, 2, "+n+"], func(i, v) {",
+			"		out += v",
+			"	})",
+			"}")},
+		{name: "whileCondJump", inf: true, src: lines(
+			"out := 0",
+			"go_on := true",
+			"for go_on {",
+			"	out += 1",
+			"	go_on = lim < 0 || out < lim",
+			"}")},
 		{name: "hostTicks", inf: true, host: true, src: lines(
 			"out := 0",
 			"for i := 0; lim < 0 || i < lim; i++ {",
@@ -230,6 +273,10 @@ func genC07(r *plan.Rng, tier string) *plan.Plan {
 	sc := plan.Script{Src: pr.src, Inputs: []plan.Input{{Name: "lim", Val: plan.GoInt(limA)}, {Name: "k", Val: plan.GoInt(kA)}}}
 	if pr.host {
 		sc.Inputs = append(sc.Inputs, plan.Input{Name: "tick", Host: "tick"})
+	}
+	if pr.mods {
+		sc.Modules = []string{"enum"}
+		p.Modules = []plan.Module{{Name: "enum", Std: true}}
 	}
 	p.Scripts = []plan.Script{sc}
 	p.Slots = 2
